@@ -25,13 +25,13 @@ func init() {
 		Level: "model_checking",
 		Rule: "choice-tree exploration: every corpus template x every assignment of <=k letters of {/*c*/, // c, newline, blank line, multi-line /*c*/} to its inter-token gaps, " +
 			"canonicalised with gofmt and deduplicated (state = canonical text); each distinct canonical file is pushed through Parse/Fprint, explicit Decorator+Restorer on a shared populated FileSet (also: one Restorer restoring two files before either is printed; a Restorer with Extras; the Decorate/DecorateFile/RestoreFile helpers and a named FileRestorer), " +
-			"ParseFile with 3 parser modes and (k<=1) ParseDir; non-trivial = canonical file with at least one insertion",
+			"ParseFile with 3 parser modes and (k<=1) ParseDir; in the quick tier files with two insertions go through the three principal entry points only (Parse+Fprint, shared FileSet, one Restorer for two files); non-trivial = canonical file with at least one insertion",
 		Assumptions: []string{"go/format of this toolchain defines 'gofmt canonical'", "comment texts range over the alphabet only", "templates are the committed corpus"},
 		Units:       func(tier string) []string { return gapUnits(gen.Templates(), c01Shards) },
 		Run:         runC01,
 		Check: func(c core.Case) core.Outcome {
 			g := decodeGap(c)
-			return checkC01(g.Src, true)
+			return checkC01(g.Src, true, true)
 		},
 	})
 }
@@ -48,7 +48,10 @@ func runC01(ctx *core.Ctx, unit int) {
 	}
 	alphabet := gen.Sigma
 	forEachCanonical(ctx, t, alphabet, k, shard, c01Shards, func(gc GapCase) {
-		o := checkC01(gc.Src, len(gc.Ins) <= 1)
+		// quick tier: files with two insertions go through the three principal entry points (Parse+Fprint,
+		// Decorator+Restorer on a shared FileSet, one Restorer for two files); files with at most one
+		// insertion, and everything in the thorough tier, go through all of them
+		o := checkC01(gc.Src, len(gc.Ins) <= 1, len(gc.Ins) <= 1 || ctx.Thorough())
 		ctx.Eval(gc, o)
 		if len(gc.Ins) == 2 {
 			ctx.Sample(gc)
@@ -57,11 +60,12 @@ func runC01(ctx *core.Ctx, unit int) {
 }
 
 // checkC01 pushes one canonical source through every entry point.
-func checkC01(src string, withDir bool) core.Outcome {
+func checkC01(src string, withDir, full bool) core.Outcome {
 	type ep struct {
 		name string
 		f    func() (string, error)
 	}
+	principal := map[string]bool{"Parse+Fprint": true, "Decorator+Restorer(shared fset)": true, "one Restorer, two files restored, then both printed": true}
 	eps := []ep{
 		{"Parse+Fprint", func() (string, error) { return roundTrip(src) }},
 		{"Decorator+Restorer(shared fset)", func() (string, error) {
@@ -184,6 +188,9 @@ func checkC01(src string, withDir bool) core.Outcome {
 		}})
 	}
 	for _, e := range eps {
+		if !full && !principal[e.name] {
+			continue
+		}
 		var out string
 		var err error
 		if p := guard(func() { out, err = e.f() }); p != "" {
